@@ -164,7 +164,7 @@ def run_core(pid, tier, seed, plan):
             v, hits = classify(pid, clauses, r, known)
             if r["drift"]:
                 total["drift_runs"] += 1
-            if not r["viol"] and not r["drift"]:
+            if not [x for x in r["viol"] if x[1] in clauses] and not r["drift"]:
                 total["clean"] += 1
             for kid, step, clause in hits:
                 known_hits.setdefault(kid, []).append(r["run"])
